@@ -35,6 +35,42 @@ pub fn c04(rng: &mut Rng, tier: &str, idx: usize) -> Case {
         c.nontrivial = true;
         return c;
     }
+    if idx == 2 {
+        // a single-parent chain of 300..360 terms (path lengths beyond 255) with a side branch at
+        // its head: the distance-based score of selected pairs is 1 / (steps + 1) at any depth; the
+        // other algorithms on the same pairs
+        let mut c = Case::new("very-deep-chain");
+        let n = 300 + rng.below(60) as usize;
+        let ids = gen_ids(rng, n + 1, &[]);
+        c.op("new".to_string());
+        for id in &ids {
+            c.op(format!("term {} -", id));
+        }
+        c.op("complete".to_string());
+        for i in 1..n {
+            c.op(format!("parent {} {}", ids[i - 1], ids[i]));
+        }
+        c.op(format!("parent {} {}", ids[0], ids[n]));
+        c.op("connect".to_string());
+        for (k, kind) in KINDS.iter().enumerate() {
+            c.op(format!("ann {kind} 1 {} {}", name("deep"), ids[n - 1 - k]));
+            c.op(format!("ann {kind} 2 {} {}", name("side"), ids[n]));
+        }
+        c.op("ic".to_string());
+        c.op("build min 0".to_string());
+        for d in [n - 1, n - 2, 257, 256, 255, 254, 200, 31, 1] {
+            for (x, y) in [(ids[d], ids[n]), (ids[n], ids[d]), (ids[d], ids[0]), (ids[d], ids[1])] {
+                c.op(format!("simpair 0 {} g {x} {y}", name("distance")));
+            }
+        }
+        for a in 0..ALG_NAMES.len() {
+            c.op(format!("simpair 0 {} {} {} {}", name(ALG_NAMES[a][0]), KINDS[a % 3], ids[n - 1], ids[n]));
+            c.op(format!("simpair 0 {} {} {} {}", name(ALG_NAMES[a][0]), KINDS[a % 3], ids[n - 1], ids[260]));
+        }
+        c.stat("very_deep_chain_terms", n as u64);
+        c.nontrivial = true;
+        return c;
+    }
     if idx % 60 == 47 {
         // a term with ~65 000 records and a child with a few hundred of them: |A| + |B| beyond the
         // u16 range while the union and the ontology stay within it (set-size arithmetic of the
